@@ -2,11 +2,14 @@
 C06 — Compilation always terminates and reports exactly the import cycles.
 What is proved here (over all runs of the executor LTS): cycle errors are sound; failures of
 requested files are always justified by a bad file or a cycle; a successful file reaches no bad
-file. What is NOT proved (stated, left open): that every maximal run reaches a final state
-(deadlock freedom, T2/T3 of DESIGN.md) — on the implementation that clause is decided per run by
-the watchdog of the `exec` engine and the final-state check of the trace validator.
+file; and (Props.C06T) deadlock freedom on ACYCLIC graphs: no reachable state is stuck while a
+requested result is missing. What is NOT proved (stated, left open): deadlock freedom on CYCLIC
+graphs (that needs the cycle-check DFS at read granularity, T3 of DESIGN.md) and a bound on run
+length — on the implementation these are decided per run by the watchdog of the `exec` engine and
+the final-state check of the trace validator.
 -/
 import PCV.Props.C05
+import PCV.Props.C06T
 namespace PCV.Props.C06
 open PCV.Exec PCV.Props.C07 PCV.Props.C05
 
@@ -40,13 +43,42 @@ theorem acyclic_failure_is_bad_file (w : World) (hc : w.cancelable = false)
   · exact ⟨g, hg, hb⟩
   · rw [hacyc g] at hcyc; cases hcyc
 
-/-- Full termination statement (open): from every reachable state in which some requested result
-    is not ready, some transition is enabled. Not proved; see the header. -/
+/-- Full termination statement: from every reachable state in which some requested result is not
+    ready, some transition is enabled. PROVED for acyclic graphs (`no_stuck_state_acyclic` below);
+    open for graphs with cycles. -/
 def no_stuck_state (w : World) : Prop :=
   ∀ s, Reachable w s → (∃ r ∈ w.req, isFinished s r = false) → ∃ e s', step w s e = some s'
 
+/-- `no_stuck_state` holds for every acyclic import graph (rank function) and parallelism ≥ 1. -/
+theorem no_stuck_state_acyclic (w : World) (hpar : w.par ≥ 1) (rank : File → Nat)
+    (hrank : ∀ f d, d ∈ w.imports f → rank d < rank f) : no_stuck_state w := by
+  intro s hr ⟨r, _, hnf⟩
+  exact PCV.Props.C06T.acyclic_no_stuck_state w hpar rank hrank s hr r hnf
+
+-- non-vacuity: the diamond a→{b,c}→d has a rank function
+example : ∃ rank : File → Nat, ∀ f d,
+    d ∈ ({ files := [("a", ["b", "c"]), ("b", ["d"]), ("c", ["d"]), ("d", [])], faults := [], par := 2 } : World).imports f →
+      rank d < rank f := by
+  refine ⟨fun f => if f = "a" then 3 else if f = "b" then 2 else if f = "c" then 2 else if f = "d" then 1 else 0, ?_⟩
+  intro f d hd
+  simp only [World.imports] at hd
+  by_cases ha : f = "a"
+  · subst ha; simp at hd; rcases hd with rfl | rfl <;> decide
+  by_cases hb : f = "b"
+  · subst hb; simp at hd; subst hd; decide
+  by_cases hc : f = "c"
+  · subst hc; simp at hd; subst hd; decide
+  by_cases hdd : f = "d"
+  · subst hdd; simp at hd
+  · have h1 : ("a" == f) = false := by simpa using Ne.symm ha
+    have h2 : ("b" == f) = false := by simpa using Ne.symm hb
+    have h3 : ("c" == f) = false := by simpa using Ne.symm hc
+    have h4 : ("d" == f) = false := by simpa using Ne.symm hdd
+    simp [List.find?, h1, h2, h3, h4] at hd
+
 end PCV.Props.C06
 
+#print axioms PCV.Props.C06.no_stuck_state_acyclic
 #print axioms PCV.Props.C06.acyclic_never_cycle_error
 #print axioms PCV.Props.C06.selfimport_sound
 #print axioms PCV.Props.C06.acyclic_failure_is_bad_file
